@@ -3,6 +3,7 @@ package main
 import (
 	"flag"
 	"fmt"
+	"golang.org/x/tools/go/ssa"
 	"os"
 	"path/filepath"
 	"runtime"
@@ -32,6 +33,8 @@ func main() {
 		cmdSweep(os.Args[2:])
 	case "lock":
 		os.Exit(cmdLock(os.Args[2:]))
+	case "mods":
+		cmdMods(os.Args[2:])
 	default:
 		usage()
 	}
@@ -89,7 +92,7 @@ func cmdFn(args []string) {
 		for _, o := range r.Obls {
 			if o.Status != "discharged" || *verbose {
 				fmt.Printf("   [%s] %s  %s  (%s %s %dms) %s %v\n", o.Status, o.Name, o.Pos, o.Res.Verdict, o.Res.Solver, o.Res.Ms, o.Expr, o.Extra)
-				if *dump != "" && o.Status != "discharged" {
+				if *dump != "" && (o.Status != "discharged" || os.Getenv("DUMPALL") != "") {
 					os.MkdirAll(*dump, 0o755)
 					f := filepath.Join(*dump, sanitize(o.Name)+".smt2")
 					writeFile(f, o.VC.script(o, true))
@@ -103,3 +106,41 @@ func cmdFn(args []string) {
 }
 
 func cmdSweep(args []string) {}
+
+func cmdMods(args []string) {
+	e, err := LoadEngine("/repo")
+	if err != nil {
+		fmt.Fprintln(os.Stderr, err)
+		os.Exit(2)
+	}
+	e.LoadAllContracts("/verif")
+	for _, a := range args {
+		fn, ok := e.funcs[a]
+		if !ok {
+			fmt.Println(a, ": not found")
+			continue
+		}
+		e.unresolved = map[string]int{}
+		e.modsets = map[*ssa.Function]*ModSet{}
+		ms := e.bodyMods(fn)
+		for k, n := range e.unresolved {
+			fmt.Printf("   unresolved %s x%d\n", k, n)
+		}
+		var names []string
+		for _, m := range ms.list() {
+			if e.inUniverse(m) {
+				names = append(names, m)
+			}
+		}
+		all := ""
+		if ms.All {
+			all = fmt.Sprintf(" ALL-except%v", ms.Except)
+		}
+		if os.Getenv("GENFRAMES") != "" {
+			short := strings.Replace(a, "server.", "", 1)
+			fmt.Printf("//@ func %s\n//@   modifies %s\n\n", short, strings.Join(names, ", "))
+			continue
+		}
+		fmt.Printf("%s:%s %s\n", a, all, strings.Join(names, ", "))
+	}
+}
